@@ -59,8 +59,8 @@ def main():
 
     signal.signal(signal.SIGALRM, on_alarm)
 
-    def sig(fn, *a, **k):
-        signal.setitimer(signal.ITIMER_REAL, 30)
+    def sig(fn, *a, _limit=30, **k):
+        signal.setitimer(signal.ITIMER_REAL, _limit)
         try:
             try:
                 t = fn(*a, **k)
@@ -170,8 +170,11 @@ def main():
 
         t = threading.Thread(target=feed, daemon=True)
         t.start()
-        c["piped"] = _nopath(sig(XonshParser.parse_file, pathlib.Path(fifo)), fifo)
+        c["piped"] = _nopath(sig(XonshParser.parse_file, pathlib.Path(fifo), _limit=8), fifo)
         t.join(0.5)
+        if c["piped"][0] == "timeout":
+            # a second attempt to open the pipe blocks for good (its only writer is gone): one such case says it all
+            break
         if t.is_alive():
             # the parser never opened the path: let the writer go
             try:
